@@ -748,8 +748,16 @@ func (sh *Shell) runOp(r *shellRun, w []string) (int, string) {
 		}
 		n, lerr := fs.Lookup(r.cwd, p)
 		if lerr == nil && n.Kind == KFifo {
+			partialFifo := o.Fail == FailExitPartial && idx == o.FailArg%len(o.Outputs)
+			if partialFifo {
+				data = data[:len(data)/2]
+			}
 			if sig := sh.writeFifo(n, p, data, o.Chunks); sig != "" {
 				return sh.finish(o, -1, sig)
+			}
+			if partialFifo {
+				r.errf("op %s: injected failure after partial write to %s", o.Name, p)
+				return sh.finish(o, 1, "")
 			}
 			o.Written[p] = true
 			continue
@@ -797,6 +805,10 @@ func (sh *Shell) runOp(r *shellRun, w []string) (int, string) {
 			return sh.finish(o, 1, "")
 		}
 		fs.AppendData(n, abs, []byte("extra:"+o.Key+"\n"))
+	}
+	if o.Fail == FailExitAfter {
+		// the command lingers after closing its outputs and only then fails
+		s.SleepNS(o.DurNS)
 	}
 	if step("exit", "") || o.Fail == FailSignal {
 		return sh.finish(o, -1, "killed")
